@@ -763,7 +763,7 @@ let emit (line : string) =
 let () =
   let cases = read_lines Sys.argv.(1) in
   let (impl, implcnt) = group_lines Sys.argv.(2) in
-  let tot_reads = ref 0 and tot_split = ref 0 and tot_short = ref 0 and tot_block = ref 0 and tot_tc = ref 0 and tot_w2 = ref 0 in
+  let tot_reads = ref 0 and tot_split = ref 0 and tot_short = ref 0 and tot_block = ref 0 and tot_tc = ref 0 and tot_w2 = ref 0 and tot_unfair = ref 0 in
   List.iteri (fun k line ->
     match String.index_opt line '|' with
     | None -> Printf.ksprintf emit "CASE %d trivial-badcase\n" k
@@ -793,6 +793,19 @@ let () =
             (if unwatched then "unsent bytes on a socket the library does not watch for writability (runw)"
              else if stalled then "an event loop of the history hit its iteration limit" else Printf.sprintf "%d log lines" nl)
       end else
+      (* a variant is a fair history when, after the last stimulus (request, response, raw bytes),
+         an event loop ran to quiescence: only then has everything the server sent been delivered
+         and the outcomes of two variants are comparable (the shrinker may delete the final loops) *)
+      let fair (ls : string list) =
+        let rec go seen_run = function      (* ls is in reverse order *)
+          | [] -> true
+          | l :: tl ->
+            if starts_with "RUN iterations=" l then go true tl
+            else if starts_with "RSP " l || starts_with "REQ " l || starts_with "RAW " l then seen_run
+            else go seen_run tl in
+        go false ls in
+      let all_fair = fair !seg && fair !plain && (!nopw = [] || fair !nopw) in
+      if not all_fair then incr tot_unfair;
       let a = analyze head fam (Array.of_list (List.rev !seg)) in
       if crashed || !plain = [] then begin
         Printf.ksprintf emit "CASE %d %s:crashed\n" k fam;
@@ -819,9 +832,11 @@ let () =
           List.iter (fun d -> Printf.ksprintf emit "DIFF %d nopw: %s\n" k d) (List.rev c.diffs);
           List.iter (fun (kd, d) -> Printf.ksprintf emit "FAIL %d %s nopw: %s\n" k kd d) (List.rev c.fails);
           let pkind = if a.dup_retry || c.dup_retry then "metamorphic-dup" else "metamorphic-pw" in
-          if a.cbs <> c.cbs then
+          if not all_fair then ()
+          else if a.cbs <> c.cbs then
             Printf.ksprintf emit "FAIL %d %s callbacks differ with / without the pending-write callback\n" k pkind;
-          if servers <= 1 && a.txs <> c.txs then
+          if not all_fair then ()
+          else if servers <= 1 && a.txs <> c.txs then
             Printf.ksprintf emit "FAIL %d %s messages at the server differ with / without the pending-write callback (%d / %d messages)\n" k pkind
               (List.length a.txs) (List.length c.txs)
           else if servers > 1 && (let noid h = if String.length h > 4 then String.sub h 4 (String.length h - 4) else h in
@@ -834,6 +849,8 @@ let () =
            read_answers() batch as the first (then the query is detached and the answer dropped)
            or later (then it hits the re-sent query).  Reported under its own kind. *)
         let mkind = if a.dup_retry || b.dup_retry then "metamorphic-dup" else "metamorphic" in
+        if not all_fair then ()
+        else begin
         if a.cbs <> b.cbs then begin
           let only x y = List.filter (fun c -> not (List.mem c y)) x in
           let cutl s = if String.length s > 160 then String.sub s 0 160 else s in
@@ -841,7 +858,13 @@ let () =
             (String.concat " | " (List.map cutl (only a.cbs b.cbs))) (String.concat " | " (List.map cutl (only b.cbs a.cbs)))
         end;
         if servers <= 1 then begin
-          if a.txs <> b.txs then begin
+          (* family idle: a query is started while another one is still outstanding in one variant
+             only (the answer is half read), and the ids drawn then differ; the messages are
+             compared in order, without the id (also for histories without a family note, e.g.
+             shrunk ones) *)
+          let noid h = if String.length h > 4 then String.sub h 4 (String.length h - 4) else h in
+          let norm l = if fam = "idle" || fam = "other" then List.map (fun (s, h) -> (s, noid h)) l else l in
+          if norm a.txs <> norm b.txs then begin
             let show l = String.concat "," (List.map (fun (s, h) -> Printf.sprintf "s%d:%s" s (if String.length h > 24 then String.sub h 0 24 else h)) l) in
             Printf.ksprintf emit "FAIL %d %s messages at the server differ: segmented=[%s] unsegmented=[%s]\n" k mkind (show a.txs) (show b.txs)
           end
@@ -853,6 +876,7 @@ let () =
           if ms a.txs <> ms b.txs then
             Printf.ksprintf emit "FAIL %d %s multiset of messages received by the servers differs: segmented %d messages, unsegmented %d\n" k mkind (List.length a.txs) (List.length b.txs)
         end
+        end
       end) cases;
-  Printf.ksprintf emit "STAT read_events %d\nSTAT reads_completing_a_buffered_frame %d\nSTAT short_writes %d\nSTAT blocked_writes %d\nSTAT tc_upgrades %d\nSTAT w2_ops %d\n"
-    !tot_reads !tot_split !tot_short !tot_block !tot_tc !tot_w2
+  Printf.ksprintf emit "STAT read_events %d\nSTAT reads_completing_a_buffered_frame %d\nSTAT short_writes %d\nSTAT blocked_writes %d\nSTAT tc_upgrades %d\nSTAT w2_ops %d\nSTAT unfair_histories %d\n"
+    !tot_reads !tot_split !tot_short !tot_block !tot_tc !tot_w2 !tot_unfair
